@@ -9,6 +9,71 @@ TB = ("Trusted: Lean 4.33 kernel; axioms propext/Classical.choice/Quot.sound onl
       "(generators, canonicalisation, oracle). The tie model<->code is regenerated facts + behavioural correspondence (a search).")
 
 CHECKS = {
+ "C10": dict(
+  text="Lean theorems about the specification MVMap (sorted association list key -> versions newest first, the exact functions the driver runs): "
+       "insert/get laws, strict key order and strictly decreasing version timestamps for every reachable map, History = window of the full version list in "
+       "either direction, readers return EXACTLY the keys in the declarative range (seek/end/prefix, both directions, offset) in order, flush changes no read, "
+       "GetBetween equals 'newest version <= t2 with ts >= t1' whenever the history-log chain is not overrun, snapshots are immutable under every later "
+       "operation list and never older than the requested ts; plus machine-checked WITNESSES of two defects (GetBetween returning another key's version; "
+       "rejected insert after reopen emptying the tree). The implementation model BTree.lean (functional B+tree with the code's serialized-size formulas, "
+       "splitIndex, per-child grouping, root growth) is PROVED to refine the spec for single-entry inserts (any node size, depth, shape; splits at all levels) and for get; "
+       "multi-entry bulks are carried by the tie only (tree depth after every BulkInsert equals tbtree's depth gauge; abs(tree)=map asserted by the driver after every op). Tie: the real tbtree (MaxNodeSize at the minimum, cache off/tiny, flush thresholds 1.., small files, "
+       "cleanup 0..100, compaction, close/reopen, open snapshots re-read after later mutations) is compared call by call with the Lean driver and with an "
+       "independent Go reference map.",
+  note=TB + " Modelled rather than verified: node/file format, cache, nodeRef lazy loading, hLog byte layout (abstracted to per-key block lists + the block at "
+       "offset 0); wall-clock snapshot renewal (RenewSnapRootAfter=0), Snapshot.Set, SyncSnapshot, HistoryReader and Reader.Reset on history readers are not exercised; "
+       "that the Go code never mutates a pinned tree is checked by re-reading open snapshots (a search). Three known findings (known_findings.json).",
+  technique="Lean 4 proof (induction over sorted lists / operation lists, refinement) + differential correspondence against the real tbtree + reference-map oracle",
+  design="7/C10"),
+ "C09": dict(
+  text="Lean theorems about a statement-by-statement model of the on-disk tx record (performPrecommit layout, txDataReader.readHeader/readEntry/"
+       "buildAndValidateHtree, KV/Tx metadata parsers, ReadValue/readValueAt/fetchVLog, TxReader chaining) over an ARBITRARY hash (conclusions Good ∨ explicit collision): "
+       "round trip parse∘serialize; acceptance implies stored Alh = Alh(parsed header) and Eh = RFC-6962 root of the version-dependent entry digests; ANY alteration of the bytes "
+       "(any number of bits, any offsets) that keeps the Alh known for the tx leaves id, ts, version, tx metadata, nentries, BlTxID, BlRoot, PrevAlh and per entry key, kv metadata, hVal unchanged or "
+       "exhibits a collision (flip_detected_partial); a value returned for a non-zero stored length has the entry's hash and length (value_authentic_partial); a full ascending scan ending in a known Alh "
+       "binds every record of the range (scan_binds_partial). The limits of the code are theorems too: vLen=0 is served unvalidated, a consistent rewrite of record+Alh is accepted by single-record reads (K2), "
+       "fetchVLog, the tx-metadata parser and the tx-metadata serialiser can panic. Tie: field order/widths of the record re-extracted from performPrecommit/readHeader/readEntry on every run and proved equal to the model's by decide; "
+       "real store directories (plain / embedded / 3 vlogs / compressed, tiny chunk files, header v0+v1, kv+tx metadata) are copied and altered at every field of every record "
+       "(boundary bits, every length/offset/count := 0/1/max/±1, vlog-id variants, metadata overruns, value bytes) plus seeded random single/multi-bit flips; ReadTx outcome (canonical record | error class | panic), "
+       "ReadValue outcome and TxReader steps are compared with the Lean driver; pristine records are compared byte for byte with serializeTx. Model-independent oracle: every call of Open/ReadTx/ReadTxHeader/"
+       "ReadTxEntry/ReadValue/ExportTx/TxReader/DualProof/Get returns an error or exactly the pristine content; panic, hang, >128 MiB allocation or different content = failure.",
+  note=TB + " Modelled rather than verified: the appendable layer (chunk files, compression, caches) is abstracted to logical byte logs (compressed value logs are exercised by the oracle only, not by the model); "
+       "the tx-log cache, the indexer and DualProof are exercised by the oracle only; 'partial' = the full property is false for the current code: 12 known finding signatures (7 root causes) (known_findings.json) incl. the documented limit K2.",
+  technique="Lean 4 proof (parser inversion + collision-explicit hash-chain injectivity) + differential correspondence on systematically corrupted real store directories",
+  design="7/C09"),
+ "C16": dict(
+  text="Go slice semantics are modelled explicitly (outcome = value | error class | PANIC, plus an allocation observable) and the binary decoders of "
+       "embedded/store (TxMetadata.ReadFrom and attribute deserialisers, KVMetadata.unsafeReadFrom, TxHeader.ReadFrom, valueRefFrom, the framing part of "
+       "ReplicateTx), embedded/appendable (Metadata.ReadFrom/readField over bufio) and embedded/sql (DecodeValueLength/DecodeValue) are transliterated "
+       "statement by statement. Lean theorems for EVERY byte string: never-panics where true (KVMetadata, valueRefFrom's own checks, SQL value decoders, attribute "
+       "deserialisers); where the current code does panic, a concrete witness theorem (7 witnesses, each replayed on the real code: known findings), the "
+       "theorem that the code with the missing guard never panics, and the `_partial` theorem that the code as it is either equals the guarded code or panics "
+       "exactly where the guard would return an error; allocation bounds from length fields (and an unboundedness witness for appendable.readField); loop bounds "
+       "never reached (termination); ReplicateTx touches the store only after the whole input parsed. Tie: every decoder is called on valid encodings built "
+       "by the repo's own encoders/real stores and on a structure-aware mutation stream; outcome class and decoded fields are compared with the model line by line.",
+  note=TB + " Modelled rather than verified: the decoders' callers beyond the framing (precommit is a parameter of the ReplicateTx model), json.Unmarshal, "
+       "bufio/bytes.Buffer semantics (modelled from their source), cap>len slices (inputs are passed with cap=len). Search-only (no model, labelled search-only "
+       "in the evidence): SQL text parser, pgsql frontend messages, pkg/stream receivers/parsers, singleapp.Open header; bounded time is argued by the loop "
+       "measure, memory by the allocation observable and a process-wide heap counter with a 48 MiB noise floor. Attribute deserialisers are reached only through "
+       "ReadFrom (go:linkname to methods of unexported types breaks Go type identity).",
+  technique="Lean 4 proof over a Go-slice DSL (panic as an outcome) + differential correspondence and panic/hang/allocation oracle against the real decoders under recover()",
+  design="7/C16"),
+ "C17": dict(
+  text="Lean refinement theorems from mirror models of singleapp.AppendableFile and multiapp.MultiFileAppendable (uncompressed format, incl. the SIEVE "
+       "handle cache) to a growable byte array, for ALL operation sequences (induction over op lists with an invariant relating write buffer, "
+       "flushed offset and physical file / chunk files): Append returns the previous size and adds exactly its bytes across buffer flushes and any "
+       "number of chunk rotations; SetOffset truncates; Flush/Sync (also a failing fsync with retryable sync)/SwitchToReadOnly/Copy keep the content; "
+       "DiscardUpto keeps every byte at or after the offset; ReadAt and close+reopen refine under the exact side conditions ReadSafe/CurSafe and "
+       "NoStaleTail/NoStale (theorems *_partial). The negation of the unconditional ReadAt/reopen statements is PROVED by witnesses on the mirror "
+       "(readAt_stale_witness, reopen_stale_tail_witness, multi_*_witness) and reproduced on the real code (known findings). Tie: random op "
+       "sequences on real singleapp/multiapp instances x options vs the Lean driver (offset, n, bytes, error class, size; exact incl. stale "
+       "behaviour and cache eviction order) and a model-independent []byte oracle; compressed formats by the oracle only.",
+  note=TB + " Modelled rather than verified: write/seek/close I/O errors (only fsync failure is injected, in the model only), kernel page cache / "
+       "fsync durability, compressed formats (oracle stream only: entries addressed by returned offsets), negative offsets on multiapp, the "
+       "prefetch goroutines (off for local files), concurrency (one mutex; a concurrent-reader oracle stream runs but is not modelled). "
+       "readAt_after_failed_sync_witness is model-derived and not reproduced (needs fault injection).",
+  technique="Lean 4 refinement proof (invariant + induction over operation lists) + differential correspondence against the real singleapp/multiapp",
+  design="7/C17"),
  "C18": dict(
   text="Lean theorems over the REGENERATED permission tables, gRPC descriptors and per-handler gate facts (decide over the whole tables, lifted to "
        "every caller/permission code/credential state): every RPC is classified and gated (a new RPC without entries breaks the build); an allowed "
